@@ -9,6 +9,8 @@ package main
 import (
 	"context"
 	"fmt"
+	"io"
+	"log"
 	"math/rand"
 	"os"
 	"path/filepath"
@@ -30,6 +32,9 @@ import (
 
 func startRaftStore() (*kv.RaftStore, *dragonboat.NodeHost, error) {
 	cluster.Quiet()
+	// pebble's default logger (used by dragonboat's log DB for "background error: vfs: not
+	// supported" on the in-memory FS) writes through the standard log package
+	log.SetOutput(io.Discard)
 	var lastErr error
 	for attempt := 0; attempt < 10; attempt++ {
 		ports, err := cluster.FreePorts(1)
@@ -100,7 +105,7 @@ func runStress(r *ev.Run, seed int64, opsPerClient, tables int) {
 		node := uint64(i%nodes + 1)
 		cl := &client{m: mon, idx: i + 1, node: node}
 		cls = append(cls, cl)
-		mgrs = append(mgrs, table.NewManager(nil, nil, cl, table.Config{NodeID: node}))
+		mgrs = append(mgrs, table.NewManager(nil, nil, cl, mgrConfig(node)))
 	}
 	var done atomic.Int64
 	var wg sync.WaitGroup
